@@ -154,6 +154,7 @@ def run(ctx):
         "spec_runs": [{"cfg": n, "status": r["status"], "distinct": r.get("distinct"), "generated": r.get("generated"), "wall_s": r["wall_s"]} for n, r in mc],
         "negative_designs": negs, "exhaustive": False,
     })
+    addrfilter_part(ctx)
     ctx.assumptions += [
         "the database is pgmini: the projected tables come from Projection.tla (repaired design: equal to Replay), the statements are the real Store's, evaluated under PostgreSQL's rules for the constructs they use (join / lateral / distinct on / order / limit / column naming); a construct pgmini does not know makes the run undecided (exit 2)",
         "the plpgsql trigger and read functions of 0-init-schema.sql are not executed (no PostgreSQL): Projection.tla transcribes them and TLC checks the transcription; the designs marked 'as-coded' in negative_designs are corners where the transcription of the SQL as written leaves Replay (unconfirmed observations, DESIGN.md)",
@@ -163,8 +164,49 @@ def run(ctx):
     ]
 
 
+def addrfilter_part(ctx, only=None):
+    """Address filters: AddrFilter.tla enumerates every filter over 2 segment values up to 3 (4 in the thorough tier)
+    segments with the set of accounts it selects; the real Store lists and counts them (statements evaluated by pgmini);
+    AddrFilterObs.tla judges."""
+    cases = ctx.path("af-cases.ndjson")
+    n = 4 if ctx.tier == "thorough" else 3
+    g = ctx.tlc("AddrFilter", "SPECIFICATION Spec\nCONSTANTS\n  Segs = {\"a\", \"b\"}\n  MaxLen = %d\n  OutFile = \"%s\"\nINVARIANT Sane\nPOSTCONDITION Emit\nCHECK_DEADLOCK FALSE\n" % (n, cases),
+                "addrfilter", workers=1, timeout=900)
+    if g["status"] != "ok" or not os.path.exists(cases):
+        raise Infra("AddrFilter.tla did not emit cases (%s %s)" % (g["status"], g.get("invariant")))
+    if only is not None:
+        keep = [c for c in common.read_ndjson(cases) if c["filter"] == only]
+        with open(cases, "w") as f:
+            for c in keep:
+                f.write(json.dumps(c) + "\n")
+    binp = ctx.build("storeconf")
+    res = ctx.path("af-results.ndjson")
+    ctx.run([binp, "-mode", "addrfilter", "-in", cases, "-out", res, "-stats", ctx.path("af-stats.json")], timeout=900)
+    st = json.load(open(ctx.path("af-stats.json")))
+    if only is None and (st["cases"] < 39 or st["cases_expecting_accounts"] < 30 or st["multi_segment_filters"] < 30):
+        raise Infra("vacuity guard: address filter cases %s" % {k: v for k, v in st.items() if k != "samples"})
+    o = ctx.tlc("AddrFilterObs", "SPECIFICATION OSpec\nCONSTANTS\n  ResultFile = \"%s\"\n  MaxReport = 6\nPOSTCONDITION Post\nCHECK_DEADLOCK FALSE\n" % res,
+                "af-obs", workers=1, timeout=900)
+    if o["status"] != "ok" or "OBS-VERDICT" not in o["output"]:
+        raise Infra("AddrFilterObs did not deliver a verdict (%s)" % o["status"])
+    verdict = o["output"].split("OBS-VERDICT", 1)[1]
+    lines = common.read_ndjson(res)
+    for m in re.finditer(r'<<"(\w+)", (\d+)>>', verdict):
+        r = lines[int(m.group(2)) - 1]
+        ctx.violation("%s@filter:%s" % (m.group(1), r["filter"]),
+                      "accounts listed under the address filter '%s': %s (count %s); the accounts it selects: %s" % (r["filter"], r["listed"], r["count"], r["expect"]),
+                      {"kind": "c04-addrfilter", "filter": r["filter"]})
+    ctx.coverage["address_filters"] = {"cases": st["cases"], "expecting_accounts": st["cases_expecting_accounts"], "with_open_or_several_segments": st["multi_segment_filters"],
+                                       "rule": "every filter of 1..%d segments over {a, b, empty} against a ledger holding every address of 1..%d segments but one, in a bucket whose other ledger holds them all; exhaustive" % (n, n),
+                                       "samples": (st["samples"] or [])[:1]}
+
+
 def replay(ctx, path):
     art = json.load(open(path))
+    if art["replay"].get("kind") == "c04-addrfilter":
+        addrfilter_part(ctx, only=art["replay"]["filter"])
+        ctx.coverage.update({"states": 1, "transitions": 1, "traces_validated_against_impl": 1})
+        return
     d = ctx.mkdir("hist")
     with open(os.path.join(d, "h.ndjson"), "w") as f:
         f.write(json.dumps(art["replay"]["history"]) + "\n")
